@@ -362,7 +362,7 @@ func runC14(c *explore.Ctx) {
 							Key:    fmt.Sprintf("fs=%s base=%s cfg=%s word=%s", kind, s.base, s.cfg, strings.Join(names, " ")),
 							What:   fmt.Sprintf("base %s/%s on %s, reads (Get, GetAppend, scan, half-drained iterator) then %s", s.base, s.cfg, kind, msg),
 							Size:   depth,
-							Replay: map[string]interface{}{"kind": "slice14", "fs": kind, "base": s.base, "cfg": s.cfg, "word": names, "observed": msg},
+							Replay: map[string]interface{}{"kind": "slice14", "fs": kind, "base": s.base, "cfg": s.cfg, "same": s.same, "other": s.other, "new": s.newKey, "word": names, "observed": msg},
 						})
 						return false
 					}
